@@ -54,6 +54,16 @@ def gen_lstrip(rng, tree, starts):
     dirs = [p + "/" for p, n in T.all_paths(tree) if n[0] in ("d", "l")]
     if not dirs:
         return None
+    nested = [x for x in dirs if x.count("/") >= 2]
+    if nested and rng.random() < 0.3:
+        # a later prefix that matches what is left once an earlier one was stripped ("out/", "pkg/" for out/pkg/f):
+        # exactly one prefix, the first matching one, is stripped
+        comps = rng.choice(nested).split("/")
+        cut = rng.randrange(1, len(comps) - 1)
+        out = ["/".join(comps[:cut]) + "/", comps[cut] + "/"]
+        if rng.random() < 0.3:
+            out.reverse()
+        return out
     k = rng.randrange(1, 3)
     out = rng.sample(dirs, min(k, len(dirs)))
     if rng.random() < 0.05:
